@@ -99,6 +99,12 @@ def check_case(case) -> Outcome:
     elif shape == "tuple":
         f = Formula(tuple(strs))
         exp_leaves = {("root", i): i for i in range(len(strs))}
+    elif shape == "rootkw":
+        # a root formula together with keyword parts
+        f = Formula(strs[0], w=strs[1], **({"v": strs[2]} if len(strs) > 2 else {}))
+        exp_leaves = {("root",): 0, ("w",): 1}
+        if len(strs) > 2:
+            exp_leaves[("v",)] = 2
     elif shape == "rootonly":
         # a structure with a single (root) part is still a structure: results keep that shape
         f = Formula({"root": strs[0]})
@@ -136,6 +142,11 @@ def check_case(case) -> Outcome:
         out.fail("formula-shape-vs-generator", f"{sorted(rl)} vs {sorted(exp_leaves)}", **feat)
         return out
     idx0 = None
+    # every part carries the spec of *its* formula part, and has as many columns as that spec names
+    for path, mm in rl.items():
+        if mm.model_spec.formula != fl[path] or (len(mm.shape) == 2 and mm.shape[1] != len(mm.model_spec.column_names)):
+            out.fail("part-in-wrong-slot", f"{f!r}: part {path} holds a matrix of shape {mm.shape} with the spec of {mm.model_spec.formula!r}, expected the part {fl[path]!r}", **feat)
+            return out
     for path, mm in rl.items():
         ncol = len(mm.model_spec.column_names)
         M = dense(mm).reshape(-1, ncol) if ncol else np.zeros((mm.shape[0], 0))
@@ -212,8 +223,8 @@ def gen(max_rows=10):
     @st.composite
     def strat(draw):
         fr = draw(F.frame(min_rows=2, max_rows=max_rows, nulls=True, index_kinds=("default", "default", "shuffled", "strings"), null_free=("z",)))
-        shape = draw(st.sampled_from(["twosided", "twosided", "multipart", "both", "keywords", "tuple", "tuple", "rootonly"]))
-        nparts = {"twosided": 2, "multipart": draw(st.integers(2, 3)), "both": 3, "keywords": draw(st.integers(2, 3)), "tuple": draw(st.integers(1, 3)), "rootonly": 1}[shape]
+        shape = draw(st.sampled_from(["twosided", "twosided", "multipart", "both", "keywords", "tuple", "tuple", "rootonly", "rootkw", "rootkw"]))
+        nparts = {"twosided": 2, "multipart": draw(st.integers(2, 3)), "both": 3, "keywords": draw(st.integers(2, 3)), "tuple": draw(st.integers(1, 3)), "rootonly": 1, "rootkw": draw(st.integers(2, 3))}[shape]
         parts = [draw(F.formulas(max_terms=3, max_factors=2, polyraw=False)) for _ in range(nparts)]
         sf = draw(st.one_of(st.none(), shared_fac))
         if sf is not None and nparts >= 2:
